@@ -2,7 +2,18 @@ package main
 
 import "fmt"
 
-var notDecided = map[string][]string{}
+// sentences of the property statements that no obligation decides (DESIGN.md section 10)
+var notDecided = map[string][]string{
+	"C01": {"coins sent to an escrow address by third parties (excluded by the statement, A2)"},
+	"C02": {"coins sent to an escrow address by third parties (excluded by the statement, A2)"},
+	"C03": {"that the order book built by types.BidsByPrice is a regrouping of the stored bids (assumed contract, BOUNDED conformance test)", "refunds of a batch settlement are non-negative (trusted-ensures of CalculateBatchAllocation)"},
+	"C07": {"extreme prices or amounts beyond mathematical integers: 256/315-bit overflow panics of cosmossdk.io/math (A3)"},
+	"C13": {"the exact-rational reading of the extension rule inside the 10^-18 rounding band; the rule is proved as the code computes it"},
+	"C14": {"determinism of the SDK, CometBFT and protobuf layers (A7)"},
+	"C15": {"the composition import(export(s)) = s as one statement (the three contracts are proved; the composition and the counting lemma are the written argument of DESIGN.md section 13 item 12)", "JSON/proto encoding of the genesis file; other modules' genesis"},
+	"C18": {"a rejected message leaves all module state and balances unchanged at the transaction boundary (baseapp guarantee, A1)"},
+	"C20": {"the binary starts for reasons other than the CLI bindings; offline transaction JSON; a running chain; rendering of answers"},
+}
 
 func assumptionsFor(prop string) []string {
 	return []string{
@@ -15,8 +26,9 @@ func assumptionsFor(prop string) []string {
 		"A7 x/bank, x/distribution, collections and the codec behave as the extern models say",
 		"A8 one Keeper value per store; collection handles are the Keeper's fields",
 		"A9 go/ssa is a faithful translation of the Go source",
-		"A10 induction over histories: every entry point preserves Inv (meta-argument in DESIGN.md section 4.3)",
+		"A10 induction over histories: the step case is proved (every message handler and BeginBlocker preserve the module invariant I); see A12 for the base case",
 		"A11 slices and maps hold fewer than 2^48 elements",
+		"A12 the state after the chain's first genesis satisfies the module invariant I (true for the empty store; Validate alone does not imply it)",
 	}
 }
 
